@@ -9,7 +9,8 @@
     rogw/tranp/bin/transpile.py:337-349         Runner.try_load_meta_header
     rogw/tranp/bin/transpile.py:351-387         Runner.output_filepath / fetch_output_path
     rogw/tranp/lang/module.py:83-92             module_path_to_filepath
-    rogw/tranp/providers/module.py:98-113       module_meta_factory (hash of the module's own source, module path)
+    rogw/tranp/providers/module.py:98-113       module_meta_factory (exact lookup in module_paths, hash of that module's own source, module path)
+    rogw/tranp/data/version.py                  Versions.app / Versions.py2cpp (state of the world: a new release changes them)
     rogw/tranp/implements/cpp/transpiler/py2cpp.py:134-137, 465-467   transpiler meta, header rendered into the entrypoint block
     data/cpp/template/block/entrypoint.j2:1     `// {{ meta_header }}` + line break + body
     rogw/tranp/file/writer.py:26-47             Writer.flush (makedirs + open(..., 'wb'))
@@ -369,6 +370,12 @@ structure File where
   mtime : Nat
 deriving DecidableEq, Repr
 
+/-- `Versions.app`, `Versions.py2cpp` (data/version.py): the versions compiled into the running program -/
+structure Vers where
+  app : Str
+  py2cpp : Str
+deriving DecidableEq, Repr
+
 /-- everything the runner treats as opaque; `σ` = the type of source texts -/
 structure Env (σ : Type) where
   /-- `sources.hash(filepath)`: md5 of the module's own source file (providers/module.py:111) -/
@@ -379,9 +386,7 @@ structure Env (σ : Type) where
   loads : Str → Except Err Json
   /-- the transpiled text below the header line; may depend on every source (imports) -/
   out : (Str → σ) → Str → Except Err Text
-  /-- `Versions.app`, `Versions.py2cpp`, `to_fullyname(Py2Cpp)` -/
-  appVersion : Str
-  tVersion : Str
+  /-- `to_fullyname(Py2Cpp)` -/
   tModule : Str
 
 structure World (σ : Type) where
@@ -393,27 +398,71 @@ structure World (σ : Type) where
   files : Str → Option File
   cfg : Cfg
   clock : Nat
+  /-- versions of the program that performs the next run (a new release changes them) -/
+  ver : Vers
+  /-- GHOST state (never read by the runner, used only to state theorems about histories): the sources as they were when the
+      file at a path was last written by a run -/
+  prov : Str → Option (Str → σ)
 
 variable {σ : Type}
 
-/-- `module_meta_factory(path)` (providers/module.py:98-113) as JSON value -/
+/-! ### `module_meta_factory` (providers/module.py:98-113): lookup of the module in `module_paths` -/
+
+/-- `ModulePath(path, language)` -/
+structure ModPath where
+  path : Str
+  language : Str
+deriving DecidableEq, Repr
+
+/-- `module_paths[[p.path for p in module_paths].index(module_path)]`: the FIRST entry with exactly that path; `list.index`
+    raises ValueError when there is none -/
+def metaLookup : List ModPath → Str → Except Err ModPath
+  | [], _ => .error .valueError
+  | mp :: rest, m => if mp.path = m then .ok mp else metaLookup rest m
+
+/-- the file whose md5 the factory records: `module_path_to_filepath(target.path, '.' + target.language)` -/
+def metaFile (mps : List ModPath) (m : Str) : Except Err Str :=
+  match metaLookup mps m with
+  | .error e => .error e
+  | .ok mp => .ok (moduleToFilepath mp.path ('.' :: mp.language))
+
+/-- `module_meta_factory(module_paths, sources)(module_path)` over an abstract `sources.hash` on file paths -/
+def factoryMeta (hashFile : Str → Str) (mps : List ModPath) (m : Str) : Except Err Json :=
+  match metaFile mps m with
+  | .error e => .error e
+  | .ok f => .ok (.obj [(kHash, .str (hashFile f)), (kPath, .str m)])
+
+/-- `sub in s` -/
+def isInfix (sub : Str) : Str → Bool
+  | [] => sub.isEmpty
+  | c :: cs => Str.startsWith (c :: cs) sub || isInfix sub cs
+
+/-- NOT THE CODE — the seeded variant `next(c for c in module_paths if module_path in c.path)` (substring containment, first hit),
+    kept as a regression example: `C06.meta_lookup_substring_counterexample` shows it records a sibling's hash -/
+def metaLookupSubstr : List ModPath → Str → Except Err ModPath
+  | [], _ => .error (.other ['S', 't', 'o', 'p', 'I', 't', 'e', 'r', 'a', 't', 'i', 'o', 'n'])
+  | mp :: rest, m => if isInfix m mp.path then .ok mp else metaLookupSubstr rest m
+
+/-! ### the runner proper -/
+
+/-- `module_meta_factory(path)` as JSON value, for a listed module whose own source is `s` (see `C06.meta_lookup_exact`) -/
 def moduleMeta (E : Env σ) (s : σ) (m : Str) : Json := .obj [(kHash, .str (E.hash s)), (kPath, .str m)]
 
 /-- `Py2Cpp.meta` (py2cpp.py:134-137) -/
-def transpilerMeta (E : Env σ) : Json := .obj [(kVersion, .str E.tVersion), (kModule, .str E.tModule)]
+def transpilerMeta (E : Env σ) (v : Vers) : Json := .obj [(kVersion, .str v.py2cpp), (kModule, .str E.tModule)]
 
-/-- `MetaHeader(module_meta_factory(path), transpiler.meta)` for module `m` with source `s` -/
-def curHeader (E : Env σ) (s : σ) (m : Str) : Header := Header.make E.appVersion (moduleMeta E s m) (transpilerMeta E) none
+/-- `MetaHeader(module_meta_factory(path), transpiler.meta)` for module `m` with source `s`, built by a program of versions `v` -/
+def curHeader (E : Env σ) (v : Vers) (s : σ) (m : Str) : Header := Header.make v.app (moduleMeta E s m) (transpilerMeta E v) none
 
 /-- the text of an output file (entrypoint.j2: `// {{ meta_header }}` line, then the body) -/
-def renderText (E : Env σ) (s : σ) (m : Str) (body : Text) : Text :=
-  ['/', '/', ' '] ++ ((curHeader E s m).toHeaderStr ++ '\n' :: body)
+def renderText (E : Env σ) (v : Vers) (s : σ) (m : Str) (body : Text) : Text :=
+  ['/', '/', ' '] ++ ((curHeader E v s m).toHeaderStr ++ '\n' :: body)
 
 /-- what `transpiler.transpile(entrypoint)` returns for module `m` -/
-def render (E : Env σ) (src : Str → σ) (m : Str) : Except Err Text :=
+def render (E : Env σ) (v : Vers) (src : Str → σ) (m : Str) : Except Err Text :=
   match E.out src m with
   | .error e => .error e
-  | .ok body => .ok (renderText E (src m) m body)
+  | .ok body => .ok (renderText E v (src m) m body)
 
 /-- `Runner.try_load_meta_header` (transpile.py:337-349) -/
 def tryLoadMetaHeader (E : Env σ) (w : World σ) (m : Str) : Except Err (Option Header) :=
@@ -421,14 +470,14 @@ def tryLoadMetaHeader (E : Env σ) (w : World σ) (m : Str) : Except Err (Option
   | .error e => .error e
   | .ok p => match w.files p with
     | none => .ok none
-    | some f => tryFromContent E.loads E.appVersion f.content
+    | some f => tryFromContent E.loads w.ver.app f.content
 
 /-- `Runner.can_transpile` (transpile.py:312-325) -/
 def canTranspile (E : Env σ) (w : World σ) (m : Str) : Except Err Bool :=
   match tryLoadMetaHeader E w m with
   | .error e => .error e
   | .ok none => .ok true
-  | .ok (some old) => .ok ((curHeader E (w.src m) m).identity E.md5 != old.identity E.md5)
+  | .ok (some old) => .ok ((curHeader E w.ver (w.src m) m).identity E.md5 != old.identity E.md5)
 
 /-- `[module_path for module_path in self.module_paths if self.can_transpile(module_path)]` -/
 def selectFrom (E : Env σ) (w : World σ) : List Str → Except Err (List Str)
@@ -443,9 +492,10 @@ def selectFrom (E : Env σ) (w : World σ) : List Str → Except Err (List Str)
 def targets (E : Env σ) (w : World σ) (argForce : Bool) : Except Err (List Str) :=
   if effForce w.cfg argForce then .ok w.mods else selectFrom E w w.mods
 
-/-- `Writer(path).put(content).flush()` (file/writer.py) -/
+/-- `Writer(path).put(content).flush()` (file/writer.py); the ghost field remembers the sources of the moment -/
 def World.write (w : World σ) (p : Str) (c : Text) : World σ :=
-  { w with files := fun q => if q = p then some ⟨c, w.clock⟩ else w.files q, clock := w.clock + 1 }
+  { w with files := fun q => if q = p then some ⟨c, w.clock⟩ else w.files q, clock := w.clock + 1,
+           prov := fun q => if q = p then some w.src else w.prov q }
 
 structure RunResult (σ : Type) where
   world : World σ
@@ -457,7 +507,7 @@ structure RunResult (σ : Type) where
 /-- the loop of `_run_impl` (transpile.py:306-310) -/
 def writeAll (E : Env σ) (w : World σ) : List Str → RunResult σ
   | [] => ⟨w, [], none⟩
-  | m :: ms => match render E w.src m with
+  | m :: ms => match render E w.ver w.src m with
     | .error e => ⟨w, [], some e⟩
     | .ok c => match outputFilepath w.cfg m with
       | .error e => ⟨w, [], some e⟩
@@ -481,15 +531,18 @@ inductive Op (σ : Type)
   | setDirs (dirs : List Str)
   /-- rewrite the `force:` key of the config file (`none` = remove it) -/
   | setForce (f : Option Bool)
+  /-- later runs are performed by a release with these versions (`Versions.app`, `Versions.py2cpp`) -/
+  | setVer (v : Vers)
 
 def step (E : Env σ) (w : World σ) : Op σ → World σ
   | .edit m s => { w with src := fun q => if q = m then s else w.src q }
   | .run f => (runStep E w f).world
   | .rmOutput m => match outputFilepath w.cfg m with
     | .error _ => w
-    | .ok p => { w with files := fun q => if q = p then none else w.files q }
+    | .ok p => { w with files := fun q => if q = p then none else w.files q, prov := fun q => if q = p then none else w.prov q }
   | .setDirs ds => { w with cfg := { w.cfg with dirs := ds } }
   | .setForce f => { w with cfg := { w.cfg with forceCfg := f } }
+  | .setVer v => { w with ver := v }
 
 def exec (E : Env σ) (w : World σ) (ops : List (Op σ)) : World σ := ops.foldl (step E) w
 
